@@ -1200,6 +1200,12 @@ def cache_key(chk, prog, files):
             if isinstance(s, ast.Assign) and len(s.targets) == 1 and isinstance(s.targets[0], ast.Attribute) and isinstance(s.targets[0].value, ast.Name) \
                     and s.targets[0].value.id == "self":
                 stores[s.targets[0].attr] = s.value
+            # pairwise form: self._key, self._value = key, value
+            if isinstance(s, ast.Assign) and len(s.targets) == 1 and isinstance(s.targets[0], ast.Tuple) and isinstance(s.value, ast.Tuple) \
+                    and len(s.targets[0].elts) == len(s.value.elts):
+                for t_, v_ in zip(s.targets[0].elts, s.value.elts):
+                    if isinstance(t_, ast.Attribute) and isinstance(t_.value, ast.Name) and t_.value.id == "self":
+                        stores[t_.attr] = v_
         local_defs = {}
         for s in ast.walk(f.node):
             if isinstance(s, ast.Assign) and len(s.targets) == 1 and isinstance(s.targets[0], ast.Name):
@@ -1243,6 +1249,8 @@ def cache_key(chk, prog, files):
             # what the comparison guards
             flags = set()
             guarded_nodes = []
+            early_nodes = []
+            early_cached = set()
             for s in ast.walk(f.node):
                 if isinstance(s, ast.Assign) and s.value is cmp_ and isinstance(s.targets[0], ast.Name):
                     flags.add(s.targets[0].id)
@@ -1250,15 +1258,37 @@ def cache_key(chk, prog, files):
             def is_flag(t):
                 return t is cmp_ or (isinstance(t, ast.Name) and t.id in flags) or (isinstance(t, ast.UnaryOp) and isinstance(t.op, ast.Not) and is_flag(t.operand))
             for s in ast.walk(f.node):
-                if isinstance(s, ast.If) and is_flag(s.test):
+                if isinstance(s, ast.If) and is_flag(s.test) and not (isinstance(cmp_.ops[0], (ast.Eq, ast.Is)) and s.test is cmp_ and s.body and isinstance(s.body[-1], ast.Return) and not s.orelse):
                     guarded_nodes.extend(s.body)
                     guarded_nodes.extend(s.orelse)
+                # early-return form: `if key == self._key: return <cached>` skips everything that follows in the block
+                for blk in (getattr(s, "body", None), getattr(s, "orelse", None)):
+                    if isinstance(blk, list):
+                        for i_, st_ in enumerate(blk):
+                            if isinstance(st_, ast.If) and is_flag(st_.test) and st_.body and isinstance(st_.body[-1], ast.Return) and not st_.orelse:
+                                early_nodes.extend(blk[i_ + 1:])
                 if isinstance(s, ast.Call) and any(is_flag(k.value) for k in s.keywords) or (isinstance(s, ast.Call) and any(is_flag(a) for a in s.args)):
                     guarded_nodes.extend([a for a in s.args if not is_flag(a)])
                     guarded_nodes.extend([k.value for k in s.keywords if not is_flag(k.value)])
             need = set()
             for g in guarded_nodes:
                 need |= deps(g)
+            # after an early return only the values remembered on the object are "skipped work" (the rest of the tail is redone from the cached value on the hit path)
+            for g in early_nodes:
+                for x in ast.walk(g):
+                    if isinstance(x, ast.Assign):
+                        tv = []
+                        for t_ in x.targets:
+                            if isinstance(t_, ast.Tuple) and isinstance(x.value, ast.Tuple) and len(t_.elts) == len(x.value.elts):
+                                tv.extend(zip(t_.elts, x.value.elts))
+                            else:
+                                tv.append((t_, x.value))
+                        for t_, v_ in tv:
+                            t0 = t_.value if isinstance(t_, ast.Subscript) else t_
+                            if isinstance(t0, ast.Attribute) and isinstance(t0.value, ast.Name) and t0.value.id == "self" and t0.attr != attr:
+                                need |= deps(v_)
+                                early_cached.add(t0.attr)
+            guarded_nodes = guarded_nodes + early_nodes
             # object state the skipped work reads: attributes that some method other than the constructor (re)assigns are inputs too
             def attrs_of(node_or_nodes):
                 out = set()
@@ -1291,7 +1321,7 @@ def cache_key(chk, prog, files):
                     if isinstance(x, ast.Subscript) and isinstance(x.ctx, ast.Store) and isinstance(x.value, ast.Attribute) and isinstance(x.value.value, ast.Name) \
                             and x.value.value.id == "self":
                         mutable.add(x.value.attr)
-            stale_state = sorted(a_ for a_ in attrs_of([g_ for g_ in guarded_nodes if isinstance(g_, ast.AST)]) if a_ in mutable and a_ not in key_attrs and a_ not in cached_attrs and a_ != attr)
+            stale_state = sorted(a_ for a_ in attrs_of([g_ for g_ in guarded_nodes if isinstance(g_, ast.AST)]) if a_ in mutable and a_ not in key_attrs and a_ not in cached_attrs and a_ not in early_cached and a_ != attr)
             if stale_state:
                 chk.finding("CACHE-KEY", f.module.rel, f.qname, "key self.%s = %s" % (attr, ast.unparse(key_expr)[:60]),
                             "the work skipped while `%s` is unchanged reads %s, object state that other methods re-assign and that the remembered key does not cover: after such a "
